@@ -78,7 +78,11 @@ CLAIM = dict(
           '(stream general_boxes, search gboxes: decimal non-dyadic asymmetric bounds such as [0.1,0.7], negative, positive, '
           'symmetric, tiny / huge width and random double bounds for EVERY routine taking a, b incl. func_gets_full(A, a, b, m) '
           'and the same-grid inversion; points exactly on faces, corners and on the grid nodes teneva.ind_to_poi computes).  '
-          'Kept OUT (not covered by the property text, quantifier n_k >= 2 / documented types): the Chebyshev grid '
+          'Conditioning family for func_int_general (stream general_conditioned_exact_oracle with the exact solution in the '
+          'oracle slot, search general with cond): monomials up to degree 11 on 16 nodes, shifted boxes [1,4], [10,11], badly '
+          'scaled columns, restricted to 1e2 <= cond(H) <= 2e5: scipy lstsq(cond=1e-6) drops singular values below '
+          '1e-6*sigma_max, so the oracle contract (and the exactness clause) holds numerically only while cond(H) < 1e6 '
+          '(measured on the unchanged tree: 8.5e5 -> error 9e-11, 5.5e7 -> wrong coefficients).  Kept OUT (not covered by the property text, quantifier n_k >= 2 / documented types): the Chebyshev grid '
           'with m = 1 (its only node is cos(pi*0/0) = NaN in ind_to_poi), NumPy integer scalars as bounds (TypeError in '
           'grid_prep_opt), list / 1-D points for func_get_full (ndarray [samples, d] documented), value scalings whose '
           'results are subnormal (2^-1000).  The search (independent of the model) checks every clause of the property '
@@ -121,6 +125,9 @@ Definition show_t (ns : list nat) (A : tens Qc) : list (Z * Z) := map sq (tflat 
 Definition show_m (A : mat Qc) : list (Z * Z) := nz (mr A) :: nz (mc A) :: map sq (concat (md A)).
 Definition f_int Y := show_rtt (func_int OQc cs_Qc snq Y Cheb).
 Definition f_get X A a b z s := show_l (func_get OQc tolq X A a b z s).
+Definition show_mq (A : mat Qc) : list (Z * Z) := nz (mr A) :: nz (mc A) :: map sq (concat (md A)).
+Definition f_general_q Y Hs (sol : list (mat Qc)) :=
+  show_tt (func_int_general OQc (fun k _ _ => nth k sol (mk_mat 0 0 [])) Y Hs).
 Definition f_get_opt X A a b z s := show_l (func_get_opt OQc tolq X A a b z s).
 Definition f_gets A ms := show_tt (func_gets_opt OQc cs_Qc snq A ms Cheb).
 Definition f_sum A a b := show_l [func_sum OQc A a b Cheb].
@@ -384,6 +391,7 @@ def correspondence(R, ctx):
     bad += corr_edges(R, tn, rng, th)
     bad += corr_options(R, tn, rng, th)
     bad += corr_boxes(R, tn, rng, th)
+    bad += corr_general_exact(R, tn, rng, th)
     bad += corr_histories(R, tn, rng, th)
     bad += corr_scales(R, tn, rng, th)
     bad += corr_float(R, tn, rng, th)
@@ -399,7 +407,7 @@ def corr_qc(R, tn, rng, th):
         dist['kinds'][kind] = dist['kinds'].get(kind, 0) + 1
         items.append(dict(coq=coq, impl=impl, input=[kind] + inp))
 
-    reps = 60 if th else 14
+    reps = 60 if th else 10
     for rep in range(reps):
         d = rng.choice([1, 2, 2, 3, 3, 4]) if rep > 3 else [1, 2, 3, 2][rep]
         ns = [rng.choice([2, 3, 4]) for _ in range(d)]
@@ -503,7 +511,7 @@ def corr_forms(R, tn, rng, th):
         impl = impl_flat(thunk, rk)
         items.append(dict(coq=coq, impl=impl, input=[kind, form] + inp))
 
-    for rep in range(10 if th else 3):
+    for rep in range(10 if th else 2):
         d = rng.choice([2, 3]) if rep else 2
         ns = [rng.choice([2, 3, 4]) for _ in range(d)]
         Ai = [np.array(G, dtype=np.int64) for G in rand_tt(rng, ns, 2)]
@@ -682,6 +690,61 @@ def corr_edges(R, tn, rng, th):
 # ---------------------------------------------------------------------------------------------
 # option interactions and general (non-dyadic, asymmetric, negative, tiny / huge) boxes -- Qc instance, the model decides
 # ---------------------------------------------------------------------------------------------
+def qmat(M):
+    return f'(mk_mat {len(M)} {len(M[0])} {C.nested([[Fr(v) for v in r] for r in M], C.qlit)})'
+
+
+def corr_general_exact(R, tn, rng, th):
+    """func_int_general on custom bases of growing condition number (monomials up to degree 11 on 16 nodes, shifted boxes
+    [1,4], [10,11], badly scaled columns) inside the regime cond(H) <= 2e5 where lstsq(cond=1e-6) is a faithful solver.
+    Qc model with the EXACT least-squares solution in the oracle slot (data generated exactly in the span, so the contract
+    lstsq_ok holds for it and C12_general_core_exact says the result is the coefficient tensor): the implementation must
+    reproduce it to 1e-7."""
+    items = []
+    dist = dict(cases=0, cond=[], bases={}, note='Qc instance; exact rational basis matrices and data; tolerance 1e-7 * '
+                'max(1, max|coefficients|); regime 1e2 <= cond(H) <= 2e5 (measured limit of the unchanged code: 1e6)')
+    for bname, m, X in conditioned_cases(rng, 6 if th else 3):
+        d = 2
+        Xq = [Fr(x).limit_denominator(64) if bname != 'mono' or len(X) != 16 or abs(X[0]) != 1 else Fr(x).limit_denominator(15)
+              for x in X]
+        Xq = sorted(set(Xq))
+        if len(Xq) < m:
+            continue
+        Xf = [float(x) for x in Xq]
+        basis = S_BASES[bname](m)
+        if not (COND_LO <= cond_of(basis, Xf) <= COND_HI):
+            continue
+        # exact basis matrix (points x functions): all bases are polynomials with rational coefficients in x
+        if bname == 'mono':
+            Hq = [[x ** j for j in range(m)] for x in Xq]
+        elif bname == 'mono8':
+            Hq = [[(8 * x) ** j for j in range(m)] for x in Xq]
+        else:   # 'shifted': (x - 1)^j + (j % 2)
+            Hq = [[(x - 1) ** j + (j % 2) for j in range(m)] for x in Xq]
+        n = len(Xq)
+        r = [1, rng.randint(1, 2), 1]
+        Cq = [[[[Fr(rng.randint(-3, 3)) for _ in range(r[k + 1])] for _ in range(m)] for _ in range(r[k])] for k in range(d)]
+        Yq = [[[[sum(Hq[i][j] * Cq[k][a][j][b] for j in range(m)) for b in range(r[k + 1])] for i in range(n)]
+               for a in range(r[k])] for k in range(d)]
+        Yf = [np.array([[[float(v) for v in row] for row in mat] for mat in G]) for G in Yq]
+        # exact solutions Q_k (m x r1*r2), column c = a * r2 + b
+        sol = [[[Cq[k][c // r[k + 1]][j][c % r[k + 1]] for c in range(r[k] * r[k + 1])] for j in range(m)] for k in range(d)]
+        coq = (f'f_general_q [{"; ".join("(mk_core %d %d %d %s)" % (r[k], n, r[k + 1], C.nested(Yq[k], C.qlit)) for k in range(d))}] '
+               f'[{"; ".join(qmat(Hq) for _ in range(d))}] [{"; ".join(qmat(sol[k]) for k in range(d))}]')
+        Y0 = [G.copy() for G in Yf]
+        impl = impl_flat(lambda: tn.func_int_general(Yf, np.array(Xf), basis), 'tt')
+        if any(not np.array_equal(G, G0) for G, G0 in zip(Yf, Y0)):
+            impl = ('err', 'func_int_general modified its argument Y')
+        c = cond_of(basis, Xf)
+        dist['cases'] += 1
+        dist['cond'].append(float(f'{c:.3g}'))
+        dist['bases'][bname] = dist['bases'].get(bname, 0) + 1
+        items.append(dict(coq=coq, impl=impl, input=['func_int_general', bname, m, [str(x) for x in Xq], r,
+                                                     [[[[str(v) for v in row] for row in mat] for mat in G] for G in Cq], c]))
+    return approx_corr(R, 'general_conditioned_exact_oracle', HEADER_Q, items, q_vals, 1e-7, 2, dist)
+
+
+
 OMIT = object()
 
 
@@ -1414,7 +1477,39 @@ S_BASES = {
     'mono': lambda m: (lambda X: np.array([np.asarray(X, dtype=float) ** j for j in range(m)])),
     'shifted': lambda m: (lambda X: np.array([(np.asarray(X, dtype=float) - 1) ** j + (j % 2) for j in range(m)])),
     'cheb': lambda m: (lambda X: np.array([NC.chebval(np.asarray(X, dtype=float), [0] * j + [1]) for j in range(m)])),
+    # badly scaled columns: (8 x)^j
+    'mono8': lambda m: (lambda X: np.array([(8.0 * np.asarray(X, dtype=float)) ** j for j in range(m)])),
 }
+
+
+def cond_of(basis, X):
+    sv = np.linalg.svd(basis(np.asarray(X, dtype=float)).T, compute_uv=False)
+    return float(sv[0] / sv[-1]) if sv[-1] > 0 else float('inf')
+
+
+# conditioning regime of func_int_general: scipy.linalg.lstsq(cond=1e-6) drops singular values below 1e-6 * sigma_max, so the
+# unchanged code recovers the coefficients (to ~1e-10) only while cond(H) < 1e6 (measured: 8.5e5 -> 9e-11, 5.5e7 -> wrong).
+# The conditioned family keeps 1e2 <= cond(H) <= 2e5.
+COND_LO, COND_HI = 1e2, 2e5
+
+
+def conditioned_cases(rng, k):
+    """(basis name, m, sample points) with growing condition number inside the regime"""
+    cand = []
+    for m in (8, 10, 12):
+        cand.append(('mono', m, [-1 + 2 * j / 15 for j in range(16)]))                       # degree <= 11 on 16 nodes
+        cand.append(('mono', m, [float(np.cos(np.pi * (j + 0.5) / 16)) for j in range(16)]))
+    for m in (4, 5, 6):
+        cand.append(('mono', m, [1 + 3 * j / (m + 2) for j in range(m + 3)]))                # shifted box [1, 4]
+        cand.append(('mono', m, [1 + 0.25 * j for j in range(13)]))
+    for m in (2, 3):
+        cand.append(('mono', m, [10 + j / (m + 2) for j in range(m + 3)]))                   # shifted box [10, 11]
+    for m in (4, 5, 6):
+        cand.append(('mono8', m, [-1 + 2 * j / (m + 1) for j in range(m + 2)]))              # badly scaled columns
+        cand.append(('shifted', m, [2 + 0.5 * j for j in range(m + 2)]))
+    cand = [(b, m, X) for b, m, X in cand if COND_LO <= cond_of(S_BASES[b](m), X) <= COND_HI]
+    rng.shuffle(cand)
+    return cand[:k]
 
 
 def chk_general(tn, case):
@@ -2023,6 +2118,11 @@ def s_cases(rng, deep):
         r = [1] + [rng.randint(1, 3) for _ in range(d - 1)] + [1]
         cases.append(('linear', dict(ns=ns, r=r, seed=rng.randrange(10 ** 6), al=rng.choice([2.0, -0.5, 3.0]),
                                      be=rng.choice([1.0, -1.5, 0.25]))))
+    for bname, m, X in conditioned_cases(rng, 10 if deep else 4):
+        d = rng.choice([2, 3])
+        r = [1] + [rng.randint(1, 2) for _ in range(d - 1)] + [1]
+        cases.append(('general', dict(d=d, ns=[len(X)] * d, m=m, X=[list(X)] * d, same_x=True, basis=bname,
+                                      seed=rng.randrange(10 ** 6), r=r, cond=cond_of(S_BASES[bname](m), X))))
     for _ in range(24 if deep else 8):
         d = rng.choice([2, 2, 3])
         m = rng.randint(1, 4)
